@@ -156,6 +156,8 @@ def gen_scenario(seed, opts):
                 kind = "valid2"
             sub = r.pick(["d0/", "d1/", "v.1/", "d0/../d1/"]) if r.below(6) == 0 else ""
             stem_extra = r.pick(["", "", "", ".tab", ".x.y", ".c", ".o"])   # base names with more than one dot
+            if r.below(12) == 0:
+                stem_extra = r.pick([" sp", "%s", "$d", "'q", "=e", "#h", "%%", "\\b", "-m"])   # characters that mean something to printf, make or a shell
             if xlang:
                 ext = r.pick(["txt", "", "C", "h", "o", ext, ext])   # the name says nothing (or something else) about the language
             name = "%si%d_%s%d%s%s" % (sub, i, ("abcdefghijklmnopqrstuvwxyz"[j % 26] + ("" if j < 26 else "z")), r.below(3), stem_extra, "." + ext if ext else "")
@@ -460,7 +462,7 @@ def model(inv, files):
                     if mode == "link":
                         ntemps += 1
             tus.append(tu)
-        if mode == "link" and inputs:
+        if mode == "link" and (inputs or items):     # (a command made of -l / -Wl, arguments alone still links)
             steps.append("ld#1")
         if mode == "E" and out:
             requested.append(out)
@@ -476,7 +478,7 @@ def model(inv, files):
         for tu in tus:
             if tu["output"] and tu["output"] not in requested:
                 requested.append(tu["output"])
-        if mode == "link" and inputs:
+        if mode == "link" and (inputs or items):
             requested.append(out or "a.out")
     return {"mode": mode, "out": out, "inputs": inputs, "refused": refused, "tus": tus, "steps": steps, "requested": requested, "ntemps": ntemps,
             "items": items, "xtoks": xtoks}
@@ -1103,11 +1105,11 @@ def expected_contents(env, wdir, scn, inv, m, cache):
         elif tu["ext"] == ".s":
             if m["mode"] == "S":
                 continue
-            if kind is None or kind == "dir":
+            if kind is None or kind in ("dir", "missing"):
                 return None
             obj = stub_as_output(file_content(kind, "".join(c for c in p if c.isalnum())).encode())
         elif tu["ext"] == ".o":
-            if kind is None:
+            if kind is None or kind in ("dir", "missing"):
                 return None
             obj = file_content(kind, "".join(c for c in p if c.isalnum())).encode()
         else:
@@ -1117,7 +1119,7 @@ def expected_contents(env, wdir, scn, inv, m, cache):
                 exp[tu["output"]] = obj
         else:
             objs[-1] = obj
-    if m["mode"] == "link" and m["inputs"]:
+    if m["mode"] == "link" and (m["inputs"] or m["items"]):
         seq = []
         for what, x in m["items"]:
             if what == "in":
@@ -1176,7 +1178,7 @@ def own_unit_check(scn, inv, m, i, res):
             if (len(cs) == 1 or not (mf or m["out"])) and d in res["after_text"]:
                 rules.append((name, res["after_text"][d]))
     for name, text in rules:
-        flat = text.replace("\\\n", " ")
+        flat = text.replace("\\\n", " ").replace("\\ ", " ").replace("$$", "$").replace("\\#", "#")
         if os.path.basename(name) not in flat:
             v.append(("O4-output-has-wrong-content", i, "exit 0 but the dependency rule written for %s does not mention it: %s" % (name, flat[:200])))
         others = [n for n in cs if os.path.basename(n) != os.path.basename(name) and os.path.basename(n) not in os.path.basename(name)]
@@ -1289,7 +1291,7 @@ def check(env, wdir, scn, res, solo, refs, which):
                 if m["mode"] in ("S", "c") and res["before"].get(tu["output"]) != res["after"].get(tu["output"]) \
                         and not any(t2 is not tu and t2["output"] == tu["output"] for t2 in m["tus"]):
                     v.append(("O2-output-of-unstarted-unit-touched", i, "nothing was run for %s, yet %s changed" % (tu["input"], tu["output"])))
-        if m["mode"] == "link" and m["inputs"] and not any(l.startswith("ld#") for l in started):
+        if m["mode"] == "link" and (m["inputs"] or m["items"]) and not any(l.startswith("ld#") for l in started):
             t = m["out"] or "a.out"
             if not t.startswith("/") and res["before"].get(t) != res["after"].get(t):
                 v.append(("O2-output-of-unstarted-unit-touched", i, "the linker was never started, yet %s changed" % t))
